@@ -13,16 +13,21 @@ use crate::util::{all_strings, J};
 pub struct C16;
 
 const FLAGS: [&str; 5] = ["", "m", "s", "i", "ms"];
+/// literal patterns for flag q: nullable iff the literal is empty
+const LITERALS: [&str; 8] = ["", "a", "a*", "(", "()", ".?", " ", "^"];
+const QFLAGS: [&str; 5] = ["q", "qi", "qx", "qm", "qs"];
 
 fn space_for(tier: Tier) -> (Space, usize) {
     let mut s = Space::new();
     match tier {
         Tier::Quick => {
-            s.ast("K", 5, 64).ast("G", 5, 64).ast("AN", 4, 64);
+            s.ast("K", 5, 64).ast("G", 5, 64).ast("AN", 4, 64).ast("ALT", 3, 64).ast("BR", 3, 64);
+            s.list("literals under q", LITERALS.len() as u64, 4);
             (s, 2)
         }
         Tier::Thorough => {
-            s.ast("K", 5, 64).ast("G", 6, 64).ast("AN", 5, 64).ast("Q", 3, 64).ast("GC", 5, 64);
+            s.ast("K", 5, 64).ast("G", 6, 64).ast("AN", 5, 64).ast("Q", 3, 64).ast("GC", 5, 64).ast("ALT", 4, 64).ast("BR", 4, 64);
+            s.list("literals under q", LITERALS.len() as u64, 4);
             (s, 3)
         }
     }
@@ -54,6 +59,50 @@ impl Check for C16 {
         let (sp, maxlen) = space_for(ctx.tier);
         let (seg, lo, hi) = sp.locate(chunk);
         let scope_name = space::seg_scope_name(seg);
+        if let SegKind::List { .. } = seg.kind {
+            for i in lo..hi {
+                let lit = LITERALS[i as usize];
+                let nullable = lit.is_empty();
+                for flags in QFLAGS {
+                    let re = match common::compile(lit, flags, false) {
+                        Compiled::Ok(re) => re,
+                        _ => {
+                            out.inc("rejected_valid");
+                            continue;
+                        }
+                    };
+                    out.inc("nontrivial");
+                    for inp in ["", "a", "abc", "a*(", " "] {
+                        let base = Case::new(&scope_name, lit, flags).input(inp);
+                        let r = imp::replace_all(&re, inp, "-");
+                        let a = imp::analyze(&re, inp);
+                        let t = imp::tokenize(&re, inp);
+                        out.inc("states");
+                        if r.is_crash() || a.is_crash() || t.is_crash() {
+                            out.inc("inconclusive_crash");
+                            continue;
+                        }
+                        out.add("validated", 3);
+                        let rej = |o: bool| if nullable { o } else { !o };
+                        if !rej(matches!(r, Out::Err(EK::MatchesEmptyString))) {
+                            out.fail("C16", &base.clone().api("replace_all"), if nullable { "NullableNotRejected" } else { "NonNullableRejected" }, if nullable { "Err(MatchesEmptyString)" } else { "Ok" }, &r.show(), "literal under flag q");
+                        }
+                        if !rej(matches!(a, Out::Err(EK::MatchesEmptyString))) {
+                            out.fail("C16", &base.clone().api("analyze"), if nullable { "NullableNotRejected" } else { "NonNullableRejected" }, if nullable { "Err(MatchesEmptyString)" } else { "Ok" }, &a.show(), "literal under flag q");
+                        }
+                        if inp.is_empty() {
+                            if t != Out::Ok(vec![]) {
+                                out.fail("C16", &base.clone().api("tokenize"), "TokenizeEmptyInput", "Ok([])", &t.show(), "");
+                            }
+                        } else if !rej(matches!(t, Out::Err(EK::MatchesEmptyString))) {
+                            out.fail("C16", &base.clone().api("tokenize"), if nullable { "NullableNotRejected" } else { "NonNullableRejected" }, if nullable { "Err(MatchesEmptyString)" } else { "Ok" }, &t.show(), "literal under flag q");
+                        }
+                    }
+                }
+                out.sample(J::obj(vec![("literal", J::s(lit)), ("flags", J::s(format!("{:?}", QFLAGS)))]));
+            }
+            return;
+        }
         let sigma = match &seg.kind {
             SegKind::Ast { scope, .. } => crate::gen::scope(scope).sigma,
             _ => unreachable!(),
